@@ -79,3 +79,22 @@ Fixpoint sorted_strictb (ks : list bytes) : bool :=
   | [] => true
   | a :: r => match r with [] => true | b :: _ => bytes_ltb a b && sorted_strictb r end
   end.
+
+(* ---- the abstract cursors of a multi-cursor history: positions indexed by identifier ---- *)
+Fixpoint amrun (es : list entry) (ps : list apos) (ops : list mop) : list apos * list (option (option entry)) :=
+  match ops with
+  | [] => (ps, [])
+  | MClone i :: r =>
+    match nth_error ps i with
+    | Some p => amrun es (ps ++ [p]) r
+    | None => (ps, [])
+    end
+  | MOp i o :: r =>
+    match nth_error ps i with
+    | Some p =>
+      let a := aspec es p o in
+      let y := amrun es (set_nth i (fst a) ps) r in
+      (fst y, snd a :: snd y)
+    | None => (ps, [])
+    end
+  end.
